@@ -75,3 +75,12 @@ package influxql
 //@     set k = (k + 1) % 2
 //@   loop 1
 //@     invariant k == 0
+
+// ================================================================ C12: every binary operator of the grammar is an operator for the re-parser
+//@ prop C12
+// The statement grammar (sql.y) accepts the bitwise operators & | ^ in conditions and prints them; the store re-parses the
+// text with ParseExpr, which continues an expression only at a token that isOperator() accepts - a missing entry makes
+// it stop silently and evaluate a truncated condition. The operator table therefore holds every binary operator token.
+//@ func init@var:operatorMap
+//@   ensures [bitwise_operators_are_operators] (BITWISE_AND in operatorMap) && (BITWISE_OR in operatorMap) && (BITWISE_XOR in operatorMap)
+//@   ensures [arithmetic_and_comparison] (ADD in operatorMap) && (SUB in operatorMap) && (MUL in operatorMap) && (DIV in operatorMap) && (MOD in operatorMap) && (EQ in operatorMap) && (NEQ in operatorMap) && (LT in operatorMap) && (LTE in operatorMap) && (GT in operatorMap) && (GTE in operatorMap) && (AND in operatorMap) && (OR in operatorMap) && (EQREGEX in operatorMap) && (NEQREGEX in operatorMap)
